@@ -90,6 +90,10 @@ def step (d : DSt) (w : List String) : DSt × String :=
       ({ d with m := m', tree := none }, Hex.encode (mapRoot H d.keyLen m'))
     | none => bad
   | ["reopen"] => (d, Hex.encode (mapRoot H d.keyLen d.m))
+  | ["evroot", kvs] =>  -- event root of a block: the spec root of the pair map (12-byte keys), state untouched
+    match parseKVs kvs with
+    | some b => (d, Hex.encode (mapRoot H 12 (applyBatch [] b)))
+    | none => bad
   | ["uniq", kvs] =>
     match parseKVs kvs with
     | some b => (d, showList ((uniqueAndSort b).map fun kv => Hex.encode kv.1 ++ "=" ++ Hex.encode kv.2) ",")
